@@ -197,6 +197,16 @@ impl Prop for C04 {
     fn shrink(&self, spec: &Value) -> Vec<Value> {
         let Ok(g) = serde_json::from_value::<GroupSpec>(spec.clone()) else { return vec![] };
         let mut out = Vec::new();
+        // two differing archives are enough: every pair of members
+        if g.members.len() > 2 {
+            for i in 0..g.members.len() {
+                for j in i + 1..g.members.len() {
+                    let mut ng = g.clone();
+                    ng.members = vec![g.members[i].clone(), g.members[j].clone()];
+                    out.push(ng);
+                }
+            }
+        }
         // workload reductions applied to every member (schedules fall back to seeded policies)
         let m0 = serde_json::to_value(&g.members[0]).unwrap();
         for cand in super::c01::shrink_pipe_public(&m0) {
@@ -222,6 +232,33 @@ impl Prop for C04 {
                 }
             }
             out.push(ng);
+        }
+        // per member: fewer workers, a schedule with few preemptions, a shorter explicit prefix
+        for (i, m) in g.members.iter().enumerate() {
+            if m.cfg.threads > 1 {
+                let mut ng = g.clone();
+                ng.members[i].cfg.threads = if m.cfg.threads > 2 { 2 } else { 1 };
+                if matches!(ng.members[i].sched.policy, Policy::Replay { .. }) {
+                    ng.members[i].sched.policy = Policy::Uniform;
+                }
+                out.push(ng);
+            }
+            if !matches!(m.sched.policy, Policy::Sticky { p: 995 }) {
+                for d in 0..2u64 {
+                    let mut ng = g.clone();
+                    ng.members[i].sched = crate::sched::SchedSpec { policy: Policy::Sticky { p: 995 }, seed: m.sched.seed.wrapping_add(d) };
+                    out.push(ng);
+                }
+            }
+            if let Policy::Replay { choices } = &m.sched.policy {
+                let mut n = choices.len();
+                while n > 0 {
+                    n /= 2;
+                    let mut ng = g.clone();
+                    ng.members[i].sched.policy = Policy::Replay { choices: choices[..n].to_vec() };
+                    out.push(ng);
+                }
+            }
         }
         out.into_iter().map(|g| serde_json::to_value(&g).unwrap()).collect()
     }
